@@ -67,8 +67,19 @@ Agree(tr) ==
        \/ HasDepth(r.log) \/ HasDepth(e.log)
        \/ /\ Matches(r.out, e.o)
           /\ e.lk => r.log = e.log
+(* the same for the folding compiler: what it computes at compile time is invisible (C09) *)
+AgreeF(tr) ==
+    LET r == RunProgram(CompileF(tr), EnvV)
+        e == Eval(tr, EnvE)
+    IN \/ r.unk
+       \/ HasDepth(r.log) \/ HasDepth(e.log)
+       \/ /\ Matches(r.out, e.o)
+          /\ e.lk => r.log = e.log
+InvF == IF AgreeF(t) THEN TRUE ELSE (PrintT(<<"DISAGREE-FOLD", t, CompileF(t), RunProgram(CompileF(t), EnvV), Eval(t, EnvE)>>) /\ FALSE)
 Inv == IF Agree(t) THEN TRUE ELSE (PrintT(<<"DISAGREE", t, RunProgram(Compile(t), EnvV), Eval(t, EnvE)>>) /\ FALSE)
 (* the comparison is not vacuous: count the trees on which the VM result is determined and the reference fixes one outcome and one log *)
 Determined(tr) == ~RunProgram(Compile(tr), EnvV).unk /\ Eval(tr, EnvE).o.o \in {"ok", "err"} /\ Eval(tr, EnvE).lk
-ASSUME PrintT(<<"L1", Cardinality(L1), "determined", Cardinality({x \in L1 : Determined(x)})>>)
+DeterminedF(tr) == ~RunProgram(CompileF(tr), EnvV).unk /\ Eval(tr, EnvE).o.o \in {"ok", "err"} /\ Eval(tr, EnvE).lk
+ASSUME PrintT(<<"L1", Cardinality(L1), "determined", Cardinality({x \in L1 : Determined(x)}), "determined with folding", Cardinality({x \in L1 : DeterminedF(x)}),
+                "folded to a constant", Cardinality({x \in L1 : F(x).c})>>)
 =============================================================================
